@@ -13,7 +13,7 @@ func init() {
 		Explain: otherNote + "C14: decided = the line's; packed integer map keys (memo tables) are injective over the documented index ranges. IDs are unioned into the result in both modes; measured mode only adds current elements of the candidate list the skipped mode returns, and only where distance < radius (the parameter itself); the search box is sized by the maximum layer fit over all line voxels and does not depend on map iteration order; result de-duplicated; negative radius / bad zoom / nil points fail. The geometric distance bound and the radius-0 identity are NOT decided.",
 		Canary:  []CanaryExpect{{Rule: "NOORDERDEP", Bad: "canaryBadFirstOfUnique", Good: "canaryGoodRangeUnique"}}})
 	register(&propSpec{ID: "C15", Level: "other", Run: runC15,
-		Explain: otherNote + "C15: decided = every documented exclusion (guard table, 90+ rows) leads to a failure return on every path under its abstract scenario, with no reachable constant index into a split ID and no nil dereference before the check; no strconv error of caller text is dropped or overwritten; Point fields are written only by guarded setters with the documented rounding; failure returns of the overlap checks and tile conversions carry false / nil; IDs are not cut with a tokenizer that drops empty components.",
+		Explain: otherNote + "C15: decided = every documented exclusion (guard table, 90+ rows) leads to a failure return on every path under its abstract scenario, with no reachable constant index into a split ID and no nil dereference before the check; no strconv error of caller text is dropped or overwritten; Point fields are written only by guarded setters with the documented rounding; failure returns of the overlap checks and tile conversions carry false / nil; IDs are not cut with a tokenizer that drops empty components; a parse error is not overwritten by the next iteration of a loop before it is read.",
 		Canary: []CanaryExpect{
 			{Rule: "ERRUSED", Bad: "canaryBadDroppedAtoi", Good: "canaryGoodCheckedAtoi"},
 			{Rule: "HANDPARSE", Bad: "canaryBadParseWrap", Good: "canaryGoodParseCutoff"},
